@@ -2,6 +2,7 @@
 C09 helper lemmas, part 1: every enumerated path is a walk in the segment graph; fuel monotonicity.
 -/
 import PartituraModel.Model.Unfold
+import PartituraModel.Model.UnfoldFam
 
 namespace C09
 open Model.Unfold
